@@ -14,6 +14,7 @@ import random
 import select
 import signal
 import socket
+import sys
 import threading
 import time
 
@@ -821,6 +822,74 @@ def explicit_accept_case(ctx, seed):
                 pass
 
 
+def accept_in_background_case(ctx, how):
+    """One thread waits in server.accept() for the next client (nobody is connecting); the clients that are connected keep
+    being served: poll / iter_pending / non-blocking receive on the server return what they sent, without waiting for a
+    connection that may never come."""
+    import threading
+    import traceback
+    case = {'kind': 'accept-in-background', 'how': how}
+    server = c1 = late = None
+    accepted = []
+    try:
+        server = PortServer('127.0.0.1', 0)
+        portno = server._socket.getsockname()[1]
+        c1 = connect('127.0.0.1', portno)
+        for _ in range(500):
+            server.poll()
+            if server.ports:
+                break
+            time.sleep(0.001)
+        th = threading.Thread(target=lambda: accepted.append(server.accept()), daemon=True)
+        th.start()
+        time.sleep(0.05)                               # the thread is now inside accept(), blocked on the listening socket
+        sent = [Message('note_on', channel=3, note=i) for i in range(3)]
+        for m in sent:
+            c1.send(m)
+        time.sleep(0.02)
+        got = []
+
+        def serve():
+            for _ in range(400):
+                if how == 'poll':
+                    m = server.poll()
+                    ms = [m] if m is not None else []
+                elif how == 'iter_pending':
+                    ms = list(server.iter_pending())
+                else:
+                    m = server.receive(block=False)
+                    ms = [m] if m is not None else []
+                got.extend(ms)
+                if len(got) >= len(sent):
+                    return
+                time.sleep(0.002)
+        st = threading.Thread(target=serve, daemon=True)
+        st.start()
+        st.join(30.0)
+        stuck = st.is_alive()
+        where = ''.join(traceback.format_stack(sys._current_frames()[st.ident])[-3:]) if stuck else None
+        ctx.check('server calls do not block', not stuck, f'server-{how}-waits-for-the-accept-in-another-thread', case, where)
+        # let the waiting accept() go: the next client arrives
+        late = connect('127.0.0.1', portno)
+        th.join(5.0)
+        st.join(5.0)
+        if not stuck:
+            ctx.check('server hands out every client message exactly once', got == sent, 'accept-in-background:delivery', case,
+                      lambda: [x.hex() for x in got])
+            ctx.check('server calls do not block', not th.is_alive() and len(accepted) == 1 and accepted[0] is not None,
+                      'accept-never-returned-the-late-client', case, None)
+    except Exception as exc:
+        ctx.fail('server hands out every client message exactly once', f'accept-in-background:{type(exc).__name__}', case, repr(exc))
+    finally:
+        for p in accepted + [c1, late, server]:
+            try:
+                if p is not None:
+                    p.close()
+            except Exception:
+                pass
+    return 1
+
+
 def dying_client_case(ctx, seed, order):
     """Two clients: A has sent complete messages, B dies with a TCP reset.  Calls on the server may
     raise OSError while B is being noticed (not judged), but A's messages must still come out,
@@ -1071,6 +1140,10 @@ def run(ctx):
         dying_client_case(ctx, f'{ctx.seed}:{ctx.shard}:y{j}', ('as-is', 'reversed')[(j + ctx.shard) % 2])
         ctx.nontrivial(('accept+dying', ctx.seed, ctx.shard, j))
         n += 2
+    for hi, how in enumerate(('poll', 'iter_pending', 'receive-nb')):
+        if (hi + 9) % ctx.nshards == ctx.shard:
+            n += accept_in_background_case(ctx, how)
+            ctx.nontrivial(('accept-in-background', how))
     for j in range(6 if ctx.tier == 'quick' else 400):
         client_turnover_case(ctx, f'{ctx.seed}:{ctx.shard}:t{j}')
         ctx.nontrivial(('turnover', ctx.seed, ctx.shard, j))
@@ -1105,6 +1178,8 @@ def replay(ctx, case):
         close_while_receiving_case(ctx, case['how'])
     elif k == 'explicit-accept':
         explicit_accept_case(ctx, case['seed'])
+    elif k == 'accept-in-background':
+        accept_in_background_case(ctx, case['how'])
     elif k == 'client-turnover':
         client_turnover_case(ctx, case['seed'])
     elif k == 'dying-client':
